@@ -52,6 +52,8 @@ pub struct AlgoGen {
     /// fraction (out of 100) of the small cases that come from a lifecycle history rather than a shape
     pub lifecycle_pct: u32,
     pub keyings: usize,
+    /// fraction (out of 1000) of cases whose node count sits on a power-of-two boundary (31..33, ..., 255..257)
+    pub boundary_per_mille: u32,
 }
 
 impl AlgoGen {
@@ -66,12 +68,26 @@ impl AlgoGen {
         let (directed, multi, self_loops) = self.kinds[(idx as usize) % self.kinds.len()];
         let regime = *rng.pick(&self.regimes);
         let large = rng.chance(self.large_pct, 100);
+        if rng.chance(self.boundary_per_mille, 1000) {
+            let n = *rng.pick(&[31usize, 32, 33, 63, 64, 65, 127, 128, 129, 255, 256, 257]);
+            let mut wr = Rng::new(seed, "workload.boundary");
+            let shape = *wr.pick(&[Shape::Cycle, Shape::Path, Shape::Union, Shape::Tree, Shape::SparseRandom, Shape::Star, Shape::Wheel, Shape::RingOfCliques]);
+            // names in descending sort order half of the time (insertion order = reverse of sort order)
+            let o = GraphOpts { directed, multi, self_loops, n_min: n, n_max: n, regime, shape: Some(shape), sprinkle: true };
+            let (specs, ops) = gen::gen_graph(&mut wr, &o);
+            let mut case = Case::new(prop, seed, specs);
+            case.ops = ops;
+            case.params.put("source", J::s("size boundary"));
+            case.params.put("regime", J::s(&format!("{:?}", regime)));
+            case.envs = gen::envs(seed, self.keyings);
+            return case;
+        }
         let mut wr = Rng::new(seed, "workload");
         let mut case;
         if !large && rng.chance(self.lifecycle_pct, 100) {
             let specs = Specs { directed, multi, self_loops, dedupe: *rng.pick(&[Dedupe::KeepFirst, Dedupe::KeepLast, Dedupe::Error]), missing: Missing::Create, slf: Slf::Drop };
             case = Case::new(prop, seed, specs);
-            let o = HistOpts { specs, max_ops: 20, regime, derived: false, restart: false, names_min: 3, names_max: 8, dup_bias: 25 };
+            let o = HistOpts { specs, max_ops: 20, regime, derived: false, restart: false, names_min: 3, names_max: 8, dup_bias: 25, big: false };
             case.ops = gen::gen_history(&mut wr, &o);
             if regime != WeightRegime::AllNan && regime != WeightRegime::Mixed {
                 for op in case.ops.iter_mut() {
@@ -92,11 +108,64 @@ impl AlgoGen {
             case.ops = ops;
             case.params.put("source", J::s("shape"));
         }
-        let pool = if large { 1 + rng.below(16) } else { 1 + rng.below(4) };
+        let pool = if large {
+            if rng.chance(1, 25) {
+                *rng.pick(&[24usize, 32, 48, 64])
+            } else {
+                1 + rng.below(16)
+            }
+        } else {
+            1 + rng.below(4)
+        };
         case.envs = gen::keyings(seed, self.keyings).into_iter().enumerate().map(|(i, k)| Env { keying: k, pool: if i == 0 { pool } else { 1 + rng.below(16) }, sched: crate::core::rng::mix(seed, 0x5c + i as u64) }).collect();
         case.params.put("regime", J::s(&format!("{:?}", regime)));
         case
     }
+}
+
+/// Fault then recovery: before the judged queries, run searches that FAIL on this thread / in this pool
+/// (a negative edge makes an already finalised node cheaper -> ContradictoryPaths, or a panic inside the
+/// parallel driver). Their results are not judged (negative weights are outside every property); what is
+/// judged is that the valid calls that follow are unaffected by the failed ones.
+pub fn poison_prelude(env: &Env, cx: &mut Ctx) {
+    use graphrs::algorithms::shortest_path::dijkstra;
+    let specs = Specs::kind(true, false, false);
+    let mut ops = vec![
+        Op::AddEdge(E::new("s", "a", 1.0)),
+        Op::AddEdge(E::new("s", "b", 2.0)),
+        Op::AddEdge(E::new("b", "a", -5.0)),
+        Op::AddEdge(E::new("a", "c", 1.0)),
+        Op::AddEdge(E::new("c", "d", 1.0)),
+    ];
+    if env.keying % 2 == 1 {
+        // a larger variant that takes the parallel path when the pool has more than one worker
+        for i in 0..24 {
+            ops.push(Op::AddEdge(E::new(&format!("p{}", i), &format!("p{}", i + 1), 1.0)));
+        }
+        ops.push(Op::AddEdge(E::new("d", "p0", 1.0)));
+    }
+    let g = match real::build(specs, &ops) {
+        Ok(g) => g,
+        Err(_) => return,
+    };
+    let b = crate::core::rt::budget(32, 32);
+    let mut failed = 0;
+    for with_paths in [true, false] {
+        match crate::core::rt::call("poison:single_source", b, || dijkstra::single_source(&g, true, "s".to_string(), None, None, false, with_paths)) {
+            Ok(Ok(_)) => {}
+            _ => failed += 1,
+        }
+    }
+    match crate::core::rt::call("poison:all_pairs", b, || crate::pool::scoped(env.pool, || dijkstra::all_pairs(&g, true, None, None, false, true))) {
+        Ok(Ok(_)) => {}
+        _ => failed += 1,
+    }
+    match crate::core::rt::call("poison:multi_source", b, || crate::pool::scoped(env.pool, || dijkstra::multi_source(&g, true, vec!["s".to_string(), "b".to_string()], Some("d".to_string()), None, false, true))) {
+        Ok(Ok(_)) => {}
+        _ => failed += 1,
+    }
+    cx.count("probe.poison_prelude");
+    cx.add("fault.failed_searches_before_the_judged_ones", failed);
 }
 
 pub type SpMap = BTreeMap<String, (f64, Vec<Vec<String>>)>;
@@ -141,7 +210,7 @@ pub fn verify_single_source(snap: &Snap, orc: &DistOracle, s: usize, got: &SpMap
         }
         let (d, paths) = &got[&snap.names[t]];
         let exp = orc.d[s][t];
-        let ok = if orc.exact { *d == exp } else { crate::oracle::close(*d, exp) };
+        let ok = if orc.exact { *d == exp } else { crate::oracle::close_rel(*d, exp) };
         if !ok {
             return Err(("distance".into(), format!("distance {:?} -> {:?} reported {} but the shortest path length is {}", sname, snap.names[t], d, exp)));
         }
@@ -169,7 +238,7 @@ pub fn verify_single_source(snap: &Snap, orc: &DistOracle, s: usize, got: &SpMap
                     None => return Err(("path uses a missing edge".into(), format!("path {:?}: there is no edge {:?} -> {:?}", p, w[0], w[1]))),
                 }
             }
-            let ok = if orc.exact { tot == *d } else { crate::oracle::close(tot, *d) };
+            let ok = if orc.exact { tot == *d } else { crate::oracle::close_rel(tot, *d) };
             if !ok {
                 return Err(("path weight != distance".into(), format!("path {:?} weighs {} but the reported distance is {}", p, tot, d)));
             }
@@ -208,7 +277,7 @@ pub fn verify_with_target(snap: &Snap, orc: &DistOracle, s: usize, t: usize, got
             None => return Err(("reported node does not exist".into(), format!("{:?} is reported but is not a node", k))),
         };
         let exp = orc.d[s][v];
-        let ok = if orc.exact { *d == exp } else { crate::oracle::close(*d, exp) };
+        let ok = if orc.exact { *d == exp } else { crate::oracle::close_rel(*d, exp) };
         if !ok {
             return Err(("distance (with target)".into(), format!("search {:?} -> target {:?}: node {:?} reported at distance {} but the shortest path length is {}", sname, tname, k, d, exp)));
         }
@@ -229,7 +298,7 @@ pub fn verify_with_target(snap: &Snap, orc: &DistOracle, s: usize, t: usize, got
                     _ => return Err(("path names unknown node".into(), format!("path {:?}", p))),
                 }
             }
-            let ok = if orc.exact { tot == *d } else { crate::oracle::close(tot, *d) };
+            let ok = if orc.exact { tot == *d } else { crate::oracle::close_rel(tot, *d) };
             if !ok {
                 return Err(("path weight != distance (with target)".into(), format!("path {:?} weighs {} but the reported distance is {}", p, tot, d)));
             }
@@ -263,6 +332,21 @@ pub fn sigma_max(orc: &DistOracle) -> f64 {
         }
     }
     mx
+}
+
+/// Can float path sums tell the weights apart? When the largest weight is more than 1e9 times the smallest,
+/// adding a light edge to a long path may not change the sum at all (absorption): the light edges then act as
+/// zero-weight edges, for which no property promises path sets. Only distances are compared on such graphs.
+pub fn comparable_scale(snap: &Snap) -> bool {
+    let mut lo = f64::INFINITY;
+    let mut hi: f64 = 0.0;
+    for e in &snap.edges {
+        if e.2 > 0.0 && e.2.is_finite() {
+            lo = lo.min(e.2);
+            hi = hi.max(e.2);
+        }
+    }
+    hi == 0.0 || hi / lo <= 1e9
 }
 
 pub fn all_positive(snap: &Snap) -> bool {
